@@ -595,6 +595,20 @@ class BuiltinMixin:
             return SV(BOOL, f(s))
         if name == 'find' and a and a[0].kind == STR:
             return SV(INT, z3.IndexOf(s, a[0].t, 0))
+        if name == 'split' and len(a) == 1 and a[0].kind == STR and not kw:
+            # s.split(sep): over-approximated by SOME non-empty list of substrings of s none of which
+            # contains sep (what the parts are exactly - their order, that they rebuild s - is not modelled:
+            # sound for proving facts that hold for every list of such parts)
+            lv = self.new_list(STR)
+            n = p.fresh('split_len', I)
+            arr = p.fresh('split_parts', z3.ArraySort(I, z3.StringSort()))
+            p.assume(n >= 1)
+            self.list_set_content(lv, n, arr)
+            j = z3.Int('j!split')
+            p.assume(z3.ForAll([j], z3.Implies(z3.And(j >= 0, j < n), z3.And(
+                z3.Contains(s, z3.Select(arr, j)),
+                z3.Or(z3.Length(a[0].t) == 0, z3.Not(z3.Contains(z3.Select(arr, j), a[0].t)))))))
+            return lv
         raise Unsupported(f'str method {name}')
 
     # ------------------------------------------------------------ regex
